@@ -267,6 +267,7 @@ func execRemote(t *testing.T, plan *simkit.Plan) *simkit.Result {
 					fl, sl, rl, lerr := loc.Stage(append([]string(nil), paths...), digests)
 					fr, sr, rr, rerr := rem.Stage(append([]string(nil), paths...), digests)
 					s.Count("probe.out_of_turn_stagings_compared", 1)
+					s.Logf("driver", "out-of-turn Stage(%v): local needs %v (%v), remote needs %v (%v)", paths, fl, lerr, fr, rerr)
 					if lerr == nil && rerr != nil {
 						if remoteFailed("Stage", rerr) {
 							return
@@ -289,10 +290,25 @@ func execRemote(t *testing.T, plan *simkit.Plan) *simkit.Result {
 						// An accepted staging request must be followed by the
 						// file data (the receiver has to be driven to its end).
 						if err := src.Supply(fl, sl, rl); err == nil {
-							if err := src.Supply(fr, sr, rr); err != nil && remoteFailed("Supply-to-remote", err) {
+							err := src.Supply(fr, sr, rr)
+							s.Logf("driver", "out-of-turn staging supplied to both (remote: %v)", err)
+							if err != nil && remoteFailed("Supply-to-remote", err) {
 								return
 							}
+							// Supplying a remote endpoint returns when the data
+							// has been sent, not when the agent has stored it. A
+							// request that is answered only after the data was
+							// handled (in turn, that is the Transition) keeps the
+							// user's next action from landing in the middle of the
+							// remote staging only - the twins would no longer see
+							// the same history.
+							for _, ep := range []synchronization.Endpoint{loc, rem} {
+								pctx, cancel := context.WithTimeout(ctx, time.Millisecond+91*time.Microsecond)
+								ep.Poll(pctx)
+								cancel()
+							}
 						} else {
+							s.Logf("driver", "out-of-turn staging: supplying the local endpoint failed: %v", err)
 							return
 						}
 					}
@@ -377,6 +393,7 @@ func execRemote(t *testing.T, plan *simkit.Plan) *simkit.Result {
 					if len(paths) > 0 {
 						fl, sl, rl, lerr := loc.Stage(append([]string(nil), paths...), digests)
 						fr, sr, rr, rerr := rem.Stage(append([]string(nil), paths...), digests)
+						s.Logf("driver", "Stage(%v): local needs %v (%v), remote needs %v (%v)", paths, fl, lerr, fr, rerr)
 						if lerr != nil {
 							continue
 						}
